@@ -349,6 +349,7 @@ func DNSCaching(ttl time.Duration) func(*Attacker) {
 				}()
 			}
 
+			var rngmu sync.Mutex
 			rng := rand.New(rand.NewSource(time.Now().UnixNano()))
 
 			tr.DialContext = func(ctx context.Context, network, addr string) (conn net.Conn, err error) {
@@ -369,7 +370,12 @@ func DNSCaching(ttl time.Duration) func(*Attacker) {
 				// Pick a random IP from each IP family and dial each concurrently.
 				// The first that succeeds wins, the other gets canceled.
 
+				// The resolver hands out its cached slice, which is shared with every
+				// other dial and must stay intact, so shuffle and trim a copy of it.
+				ips = append([]string(nil), ips...)
+				rngmu.Lock()
 				rng.Shuffle(len(ips), func(i, j int) { ips[i], ips[j] = ips[j], ips[i] })
+				rngmu.Unlock()
 
 				ips = firstOfEachIPFamily(ips)
 
